@@ -263,6 +263,9 @@ def main():
                     # query-then-move differential on this property's own operations (tools/stalelib.py)
                     import stalelib
                     stalelib.run(ctx, prop, [prop])
+                    # the same coordinates as int64 / float64 / complex128 arrays give the same answers (tools/dtypelib.py)
+                    import dtypelib
+                    dtypelib.run_for(ctx, prop, ctx.budget(60, 600))
         except Exception as e:  # noqa: BLE001
             # an exception that escapes from the implementation (a frame inside /repo) is a finding about the
             # implementation, not an infrastructure problem
